@@ -35,7 +35,7 @@ def _run_gated(item):
 
 
 def _run_nested(item):
-    r = sched.run_nested(item["A"], item["B"], item["kA"], item["kB"])
+    r = sched.run_nested(item["A"], item["B"], item["kA"], item["kB"], step=bool(item.get("step")))
     r["id"] = item["id"]
     return r
 
@@ -92,7 +92,7 @@ def run(pid, tier, seed, replay=None):
             if sc["mode"] == "gated":
                 runs = [dict(_run_gated({"id": 0, "docs": sc["docs"], "schedule": sc["schedule"]}), docs=sc["docs"], mode="gated", sc=sc)]
             elif sc["mode"] == "nested":
-                runs = [dict(_run_nested({"id": 0, "A": sc["docs"]["A"], "B": sc["docs"]["B"], "kA": sc["kA"], "kB": sc["kB"]}),
+                runs = [dict(_run_nested({"id": 0, "A": sc["docs"]["A"], "B": sc["docs"]["B"], "kA": sc["kA"], "kB": sc["kB"], "step": sc.get("step")}),
                              docs=sc["docs"], mode="nested", sc=sc)]
             else:
                 fn = _run_preempt_fresh if sc.get("fresh") else _run_preempt
@@ -232,11 +232,35 @@ def run(pid, tier, seed, replay=None):
                 for sb in fb:
                     nitems.append({"id": len(nitems), "A": a, "B": b, "kA": [sa[0], sa[1], sa[2], 1], "kB": [sb[0], sb[1], sb[2], 1]})
         phase("nested listing")
+        # 2d'. the same with thread A parked at EVERY call instance inside the colour service (the one process-wide object
+        # both documents talk to) and B parked at the first instance of each of its call sites: a value one thread stores
+        # in two steps can be split by the other thread's own two-step store only in such a nested schedule
+        occ_a = {}
+        inst_a = []
+        for site in sched.list_calls("colA"):
+            occ_a[site] = occ_a.get(site, 0) + 1
+            if site[0] == "color_service.py":
+                inst_a.append((site, occ_a[site]))
+        # B: every call instance inside the colour service too (between two of its look-ups no function is called for the
+        # first time), the first instance of every other site
+        occ_b = {}
+        inst_b = []
+        for site in sched.list_calls("colB"):
+            occ_b[site] = occ_b.get(site, 0) + 1
+            if site[0] == "color_service.py" or occ_b[site] == 1:
+                inst_b.append((site, occ_b[site]))
+        nsvc = 0
+        for (sa, oa) in inst_a:
+            for (sb, ob) in inst_b:
+                # (three switches: A .. | B .. | A steps out | B rest | A rest)
+                nitems.append({"id": len(nitems), "A": "colA", "B": "colB", "kA": [sa[0], sa[1], sa[2], oa], "kB": [sb[0], sb[1], sb[2], ob], "step": True})
+                nsvc += 1
+        ctx.extra["nested_colour_service_runs"] = nsvc
         nest = pmap(_run_nested, nitems, chunk=32)
         phase("nested runs")
         for it, r in zip(nitems, nest):
             docs = {"A": it["A"], "B": it["B"]}
-            runs.append(dict(r, docs=docs, mode="nested", sc={"mode": "nested", "docs": docs, "kA": it["kA"], "kB": it["kB"]}))
+            runs.append(dict(r, docs=docs, mode="nested", sc={"mode": "nested", "docs": docs, "kA": it["kA"], "kB": it["kB"], "step": bool(it.get("step"))}))
         ctx.extra["nested_two_preemption_runs"] = len(nitems)
         for i, r in enumerate(runs):
             r["id"] = i
